@@ -127,10 +127,19 @@ def wl_history(ctx, rng, case, force_width=None):
             n = rng.randint(1, 3)
             op = rng.choice(["add_alt", "remove_alt"]) if true[k] >= n else "add_alt"
             long_hashes = s.hashes(k, s.depth + rng.randint(1, 3))
-            case.op(op + "-too-many-hashes", k, n)
+            kind = rng.choice(["too-many-hashes", "too-many-hashes", "fractional-amount", "amount-below-int32"])
+            case.op(op + "-" + kind, k, n)
             try:
-                ret = getattr(s, op)(long_hashes, n)
+                if kind == "too-many-hashes":
+                    ret = getattr(s, op)(long_hashes, n)
+                elif kind == "fractional-amount":
+                    ret = (s.remove if op == "remove_alt" else s.add)(k, n + 0.5)  # no integer: the counters cannot take it
+                else:
+                    ret = s.add(k, -(2**32) - n)  # an amount no 32-bit counter can hold
                 true[k] += n if op == "add_alt" else -n
+                raise AssertionError(f"a call the unchanged library refuses was accepted ({kind})") if kind != "too-many-hashes" else None
+            except AssertionError:
+                raise
             except Exception:
                 ret, k = None, None
                 ctx.count("refused_misuse_calls")
